@@ -377,6 +377,20 @@ func init() {
 		})
 		return fmt.Sprintf("%s last shown=%q", ec(err), last), nil
 	}}
+	wuxSpec := SOp{Name: "WriteUpdateWithXattrs k (macro only for version a)", Do: func(w *SWorld, st *TState) (string, []uint64) {
+		var last string
+		opts := &sgbucket.MutateInOptions{}
+		_, err := w.C(st.T).WriteUpdateWithXattrs(ctx, "k", []string{"_s"}, 0, nil, opts, func(doc []byte, x map[string][]byte, cas uint64) (sgbucket.UpdatedDoc, error) {
+			last = string(doc)
+			if strings.Contains(string(doc), `"a"`) {
+				return sgbucket.UpdatedDoc{Doc: []byte(`{"v":"wa"}`), Xattrs: map[string][]byte{"_s": []byte(`{"n":1,"m":"x"}`)},
+					Spec: []sgbucket.MacroExpansionSpec{sgbucket.NewMacroExpansionSpec("_s.m", sgbucket.MacroCrc32c)}}, nil
+			}
+			return sgbucket.UpdatedDoc{Doc: []byte(`{"v":"wb"}`), Xattrs: map[string][]byte{"_s": []byte(`{"n":2,"m":"plain"}`)}}, nil
+		})
+		return fmt.Sprintf("%s last shown=%q caller's options now hold %d macro specs", ec(err), last, len(opts.MacroExpansion)), nil
+	}}
+	variants(Scenario{Name: "S12-wux-macro-per-version", Prop: []string{"C03", "C07"}, Lin: true, Setup: setupSet("k", `{"v":"a"}`), Threads: [][]SOp{{wuxSpec}, {setB}}}, 1, 2)
 	variants(Scenario{Name: "S12-update-exp-per-version", Prop: []string{"C03"}, Lin: true, Setup: setupSet("k", `{"v":"a"}`), Threads: [][]SOp{{update}, {setB}}}, 1, 2)
 	variants(Scenario{Name: "S12-wux-exp-per-version", Prop: []string{"C03", "C07"}, Lin: true, Setup: setupSet("k", `{"v":"a"}`), Threads: [][]SOp{{wux}, {setB}}}, 1, 2)
 }
